@@ -287,6 +287,8 @@ type c17Case struct {
 	Refused bool `json:"after_a_request_whose_value_the_encoder_refused,omitempty"`
 	// Stacked: the options of a second Renderer on another route that served requests in between
 	Stacked *c17Opts `json:"second_renderer_on_another_route,omitempty"`
+	// Large: the request follows requests that rendered a large document of the same format
+	Large bool `json:"after_large_documents,omitempty"`
 }
 
 // c17Refused returns values of the same top-level type as v that the standard encoders refuse (a
@@ -301,6 +303,33 @@ func c17Refused(v interface{}) []interface{} {
 		return []interface{}{c17Any{V: make(chan int)}, c17Any{V: func() {}}}
 	}
 	return nil
+}
+
+// c17AfterLarge: on a fresh instance, one or two requests that render a large document (2 KiB of text) of
+// the same format, then op, which must be rendered as on a fresh instance (and the large one again after it).
+func c17AfterLarge(o c17Opts, op c17Op, count func()) (bad, kind string) {
+	if op.Kind != "JSON" && op.Kind != "XML" {
+		return "", ""
+	}
+	large := c17Op{op.Kind, 200, c17Flat{A: strings.Repeat("large document ", 140), B: "b"}}
+	for _, n := range []int{1, 2} {
+		w := c17Build(o)
+		for i := 0; i < n; i++ {
+			count()
+			if bad, kind = c17Judge(w, o, large); bad != "" {
+				return "large document: " + bad, kind + "/large"
+			}
+		}
+		count()
+		if bad, kind = c17Judge(w, o, op); bad != "" {
+			return fmt.Sprintf("after %d earlier request(s) that rendered a 2 KiB %s document: ", n, op.Kind) + bad, kind + "/after-large-document"
+		}
+		count()
+		if bad, kind = c17Judge(w, o, large); bad != "" {
+			return "large document after a small one: " + bad, kind + "/large"
+		}
+	}
+	return "", ""
 }
 
 // c17AfterRefused: on a fresh instance, a request that renders a refused value of op's type (whatever it
@@ -384,7 +413,7 @@ func c17Run(r *core.Run) {
 		}
 	}
 	ops := c17Ops(r.Thorough())
-	r.Rule = "engine E: every status 100..999 x {JSON, XML, Binary, PlainText} x all 8 option sets (charset x JSON indent x XML indent); values: every byte string of length <=1 and a grid (thorough: all) of length 2 plus longer ones for Binary/PlainText, JSON trees over {null,bool,numbers,strings incl. html-sensitive and non-ASCII} to depth 2 width 2 plus structs/slices/maps, five XML struct shapes with all field values from {'', a, <&>\", e-acute, blanks, ]]>}; every third render also around requests through a route that carries a second Renderer with other options; every JSON/XML value with an interface in it also as the request after one or two requests (same instance) whose value of the same type the encoder refused; oracle: exact status at the underlying writer, exact Content-Type, bytes/strings verbatim, JSON/XML text equal to the standard encoder's output with the configured indentation and decoding back to an equal value; non-trivial = non-200 status or a value that needs escaping"
+	r.Rule = "engine E: every status 100..999 x {JSON, XML, Binary, PlainText} x all 8 option sets (charset x JSON indent x XML indent); values: every byte string of length <=1 and a grid (thorough: all) of length 2 plus longer ones for Binary/PlainText, JSON trees over {null,bool,numbers,strings incl. html-sensitive and non-ASCII} to depth 2 width 2 plus structs/slices/maps, five XML struct shapes with all field values from {'', a, <&>\", e-acute, blanks, ]]>}; every third render also around requests through a route that carries a second Renderer with other options; every third JSON/XML render also after and before 2 KiB documents of its format on the same instance; every JSON/XML value with an interface in it also as the request after one or two requests (same instance) whose value of the same type the encoder refused; oracle: exact status at the underlying writer, exact Content-Type, bytes/strings verbatim, JSON/XML text equal to the standard encoder's output with the configured indentation and decoding back to an equal value; non-trivial = non-200 status or a value that needs escaping"
 	r.Bounds["ops"] = len(ops)
 	r.Bounds["option_sets"] = len(optsets)
 	r.Assumptions = []string{"encoding/json and encoding/xml are the reference encoders (trusted)", "values the standard encoders refuse are outside the statement"}
@@ -473,6 +502,16 @@ func c17Run(r *core.Run) {
 						}
 					}
 				}
+				afterLarge := false
+				if bad == "" && seq {
+					bad, kind = c17AfterLarge(o, op, func() {
+						l.Evals++
+						l.Transitions++
+						l.Traces++
+						l.Extra["requests_around_large_documents"]++
+					})
+					afterLarge = bad != ""
+				}
 				refused := false
 				if bad == "" {
 					bad, kind = c17AfterRefused(o, op, func() {
@@ -486,8 +525,8 @@ func c17Run(r *core.Run) {
 				}
 				if bad != "" {
 					l.Class("mismatch")
-					l.Violate(kind+"/"+op.Kind, bad+fmt.Sprintf(" [options %+v, %s(%d, %s)]", o, op.Kind, op.Status, trunc(fmt.Sprintf("%#v", op.Val))), c17Case{Opts: o, Kind: op.Kind, Status: op.Status, Val: trunc(fmt.Sprintf("%#v", op.Val)), Index: oi, Refused: refused, Stacked: stacked,
-						Seq: seq && !refused && stacked == nil && (strings.HasPrefix(bad, "in the request sequence") || strings.HasPrefix(bad, "after an earlier request"))})
+					l.Violate(kind+"/"+op.Kind, bad+fmt.Sprintf(" [options %+v, %s(%d, %s)]", o, op.Kind, op.Status, trunc(fmt.Sprintf("%#v", op.Val))), c17Case{Opts: o, Kind: op.Kind, Status: op.Status, Val: trunc(fmt.Sprintf("%#v", op.Val)), Index: oi, Refused: refused, Stacked: stacked, Large: afterLarge,
+						Seq: seq && !refused && stacked == nil && !afterLarge && (strings.HasPrefix(bad, "in the request sequence") || strings.HasPrefix(bad, "after an earlier request"))})
 					continue
 				}
 				l.Class(fmt.Sprintf("%s:%dxx", op.Kind, op.Status/100))
@@ -571,6 +610,9 @@ func c17Replay(raw json.RawMessage) (bool, string) {
 						}
 					}
 				}
+			}
+			if bad == "" && c.Large {
+				bad, _ = c17AfterLarge(c.Opts, ops[c.Index], func() {})
 			}
 			if bad == "" && c.Stacked != nil {
 				bad, _ = c17AfterStacked(c.Opts, *c.Stacked, ops[c.Index])
